@@ -202,7 +202,9 @@ def judge_projection(case):
     l, r, br, n = case["l"], case["r"], case["br"], case["Ndat"]
     p, q = br, br + 1
     n = max(n, 6 * (br + 1) * (l + r) + 2 * br + 4)
-    j.tag("dat")
+    if case["seed"] % 5 == 0:
+        n = 4200 + case["seed"] % 5000  # long records (thousands of samples are the normal use)
+    j.tag("dat", "long" if n > 4000 else "short")
     j.nontrivial(l > 1 or br >= 2)
     rng = rng_of(case["seed"])
     # coloured data so that the projection is not trivial
